@@ -315,11 +315,11 @@ pub proof fn leaf_axioms_consistent__canary(c: TagClass, s: TagStructure, id: u6
                     sparse_list(c0, (depth + 1) as nat) == (match sparse_list(content@, (depth + 1) as nat) { Some(r) => Some(st_trees(tv@, tv@.len()) + r), None => None::<Seq<T>> }), //# inv.reference_decoder_agrees_on_the_children_so_far
                     depth < MAX_NESTING, sparse(i0, depth as nat) == (match sparse_list(c0, (depth + 1) as nat) { Some(k) => SRes::Ok((n1 + n2 + len) as nat, T::C(class, id, k)), None => SRes::Bad }),
                 decreases content@.len(), //# C11.termination_of_child_loop
-//@ insert before "parse_tag_nested(content, depth + 1)"
+//@ insert loop-start 1
                 let ghost p = c0.len() - content@.len();
                 let ghost tv_old = tv@;
                 let ghost content_old = content@;
-//@ insert after "tv.push(sub);"
+//@ insert loop-end 1
                 proof {
                     let k = content_old.len() - content@.len();
                     let p2 = p + k;
